@@ -65,7 +65,8 @@ def gen_ast(rng):
     tail = None
     if rng.random() < 0.12:
         tail = {"tag": t(), "arg": rng.choice(["%off", "%i"])}  # an op behind the last barrier: not the recognised shape
-    return {"nst": nst, "tmps": ntmp, "skip": skip is not None, "tail": tail, "const_bounds": rng.random() < 0.75, "stages": stages}
+    ring = rng.choice([0, 0, 0, 3, 4])  # the side output goes to a ring of `ring` slots: an arith.remui among the index ops
+    return {"nst": nst, "tmps": ntmp, "skip": skip is not None, "tail": tail, "ring": ring, "const_bounds": rng.random() < 0.75, "stages": stages}
 
 
 def op_text(o):
@@ -89,6 +90,8 @@ def emit(ast, env=None) -> str:
     e("builtin.module {")
     e(f"  func.func @f(%A : {BIG}, %O : {BIG}, %O2 : {BIG}, %G : {T1}, %lba : index, %uba : index, %sta : index) {{")
     e(f"    %cE = arith.constant {E} : index")
+    if ast.get("ring"):
+        e(f'    %cR = arith.constant {ast["ring"]} : index')
     if ast["const_bounds"]:
         assert env is not None
         e(f'    %lb = arith.constant {env["lb"]} : index')
@@ -108,7 +111,12 @@ def emit(ast, env=None) -> str:
     e("      %off = arith.muli %i, %cE : index")
     e(f"      %sa = memref.subview %A[%off][{E}][1] : {BIG} to {TS}")
     e(f"      %so = memref.subview %O[%off][{E}][1] : {BIG} to {TS}")
-    e(f"      %so2 = memref.subview %O2[%off][{E}][1] : {BIG} to {TS}")
+    if ast.get("ring"):
+        e(f'      %slot = arith.remui %i, %cR : index')
+        e("      %off2 = arith.muli %slot, %cE : index")
+        e(f"      %so2 = memref.subview %O2[%off2][{E}][1] : {BIG} to {TS}")
+    else:
+        e(f"      %so2 = memref.subview %O2[%off][{E}][1] : {BIG} to {TS}")
     for ops in ast["stages"]:
         for o in ops:
             e("      " + op_text(o))
@@ -143,6 +151,8 @@ def trips_of(env):
 
 
 def shrink_ast(ast):
+    if ast.get("ring"):
+        yield dict(ast, ring=0)
     if ast.get("tail"):
         yield dict(ast, tail=None)
     for s_, ops_ in enumerate(ast["stages"]):
